@@ -10,6 +10,7 @@ import random
 
 from mpv import arr, models, trace
 
+ANCHORS = ['mpilot/program.py:Program.run', 'mpilot/exceptions.py:RecursiveModelStructure.__str__']   # repository functions the workload must enter (reported as anchors_reached / anchors_missed)
 LEVEL = "fault_enumeration"
 RULE = ("labelled digraphs with at least one cycle (self-loops, 2-cycles, longer cycles, cycles with tails, with separate acyclic "
         "components) on 1-4 commands enumerated (quick: sampled), 5-8 random; edge realisation in {direct, list, nested list, mixed}; "
